@@ -866,9 +866,19 @@ fn raw_openat2(rootpath: &Path, op: &Value) -> Value {
             mode: 0,
             resolve: op["resolve"].as_u64().unwrap_or(0),
         };
-        let fd = unsafe {
-            libc::syscall(libc::SYS_openat2, rootfd, p.as_ptr(), &how as *const RawOpenHow, std::mem::size_of::<RawOpenHow>())
-        };
+        // the oracle's own call: EAGAIN only says that some rename or mount happened anywhere on the
+        // system while the kernel was walking (other shards of the check run concurrently) -- ask again
+        let mut fd;
+        let mut tries = 0;
+        loop {
+            fd = unsafe {
+                libc::syscall(libc::SYS_openat2, rootfd, p.as_ptr(), &how as *const RawOpenHow, std::mem::size_of::<RawOpenHow>())
+            };
+            tries += 1;
+            if fd >= 0 || std::io::Error::last_os_error().raw_os_error() != Some(libc::EAGAIN) || tries >= 256 {
+                break;
+            }
+        }
         if fd >= 0 {
             let d = describe_fd(fd as i32);
             unsafe { libc::close(fd as i32) };
